@@ -106,74 +106,191 @@ func clauseRejects(p *Program, info *types.Info, cc *ast.CaseClause) bool {
 	return rej
 }
 
+// dispatchPaths interprets fn and groups its paths by what they allow the dispatch subject (an expression whose
+// text ends with subjSuffix) to be. Both a switch on the subject and ==/!= chains are understood; targets are the
+// callees whose invocation identifies the branch taken.
+type dispatchPath struct {
+	labels   []string // constants the subject equals on this path (nil: none of the tested ones)
+	calls    []string // target callees invoked
+	rejected bool     // the path raises / returns an error
+	st       *pathState
+}
+
+func dispatchPaths(p *Program, fi *FuncInfo, version int, subjSuffix string, targets []string) ([]dispatchPath, []string) {
+	tr := newReadTracer(p)
+	tr.prims = map[string]string{}
+	isTarget := map[string]bool{}
+	for _, t := range targets {
+		tr.prims[t] = t
+		isTarget[t] = true
+	}
+	tr.noAuto = func(name string) bool { return isTarget[name] || strings.HasPrefix(name, "(*framer).parse") }
+	info := fi.Pkg.TypesInfo
+	var out []dispatchPath
+	for _, st := range tr.run(fi, version) {
+		dp := dispatchPath{st: st}
+		if names, ok := st.selected(subjSuffix); ok {
+			dp.labels = names
+		}
+		for _, it := range flat(st.trace) {
+			if isTarget[it.Prim] {
+				dp.calls = append(dp.calls, it.Prim)
+			}
+			if it.Prim == "return-error" || it.Prim == "panic" {
+				dp.rejected = true
+			}
+		}
+		if st.done == "panic" {
+			dp.rejected = true
+		}
+		if st.retStmt != nil && len(st.retStmt.Results) > 0 {
+			last := ast.Unparen(p.expandExpr(fi, st.retStmt.Results[len(st.retStmt.Results)-1], 0))
+			for {
+				pe, ok := last.(*ast.ParenExpr)
+				if !ok {
+					break
+				}
+				last = ast.Unparen(pe.X)
+			}
+			if c, ok := last.(*ast.CallExpr); ok {
+				switch calleeName(info, c) {
+				case "fmt.Errorf", "errors.New", "NewErrProtocol":
+					dp.rejected = true
+				}
+			}
+		}
+		out = append(out, dp)
+	}
+	return out, tr.unsup
+}
+
 func c04r1(p *Program, r *Report) {
+	constVal := func(name string, want int64) bool {
+		if c, ok := p.Root.Types.Scope().Lookup(name).(*types.Const); ok {
+			if v, ok := constValInt(c); ok && v == want {
+				return true
+			}
+		}
+		return false
+	}
+	// covered: some path restricts the subject to a set containing label and (when a target is given) calls exactly it
+	covered := func(paths []dispatchPath, label, target string) (bool, string) {
+		found, rejectedOnly := false, false
+		for _, dp := range paths {
+			has := false
+			for _, l := range dp.labels {
+				if l == label {
+					has = true
+				}
+			}
+			if !has {
+				continue
+			}
+			if dp.rejected {
+				// malformed contents are refused inside the branch; what matters is that a successful path exists
+				rejectedOnly = true
+				continue
+			}
+			found = true
+			if target != "" && !(len(dp.calls) == 1 && dp.calls[0] == target) {
+				return false, fmt.Sprintf("is handed to %v instead of %s", dp.calls, target)
+			}
+			if target == "" && len(dp.calls) != 0 {
+				return false, fmt.Sprintf("is handed to %v", dp.calls)
+			}
+		}
+		if !found {
+			return false, ifs(rejectedOnly, "is rejected", "has no branch")
+		}
+		return true, ""
+	}
+	restRejected := func(paths []dispatchPath) bool {
+		n := 0
+		for _, dp := range paths {
+			if dp.labels == nil {
+				n++
+				if !dp.rejected {
+					return false
+				}
+			}
+		}
+		return n > 0
+	}
 	if fi := r.NeedFunc("(*framer).parseFrame"); fi != nil {
-		info := fi.Pkg.TypesInfo
-		labels, def, sw := switchCases(p, fi, "header.op")
-		if sw == nil {
-			r.Unresolved("parseFrame: no switch on the header opcode")
+		parsers := map[string]string{"opError": "(*framer).parseErrorFrame", "opReady": "(*framer).parseReadyFrame", "opAuthenticate": "(*framer).parseAuthenticateFrame", "opSupported": "(*framer).parseSupportedFrame",
+			"opResult": "(*framer).parseResultFrame", "opEvent": "(*framer).parseEventFrame", "opAuthChallenge": "(*framer).parseAuthChallengeFrame", "opAuthSuccess": "(*framer).parseAuthSuccessFrame"}
+		var targets []string
+		for _, t := range parsers {
+			targets = append(targets, t)
+		}
+		sort.Strings(targets)
+		paths, unsup := dispatchPaths(p, fi, 4, "header.op", targets)
+		// only response frames are dispatched
+		var resp []dispatchPath
+		for _, dp := range paths {
+			if dp.st.assume["f.header.version.request()"] {
+				continue
+			}
+			if v, ok := dp.st.assume["bit:f.header.version:0x80"]; ok && !v {
+				continue
+			}
+			resp = append(resp, dp)
+		}
+		dispatched := false
+		for _, dp := range resp {
+			if dp.labels != nil {
+				dispatched = true
+			}
+		}
+		if !dispatched {
+			r.Unresolved("parseFrame: no dispatch on the header opcode (%s)", strings.Join(unsup, "; "))
 		} else {
 			for op, want := range specResponseOps {
-				cc := labels[op]
-				okVal := false
-				if obj := p.Root.Types.Scope().Lookup(op); obj != nil {
-					if c, ok := obj.(*types.Const); ok {
-						if v, ok := constValInt(c); ok && v == want {
-							okVal = true
-						}
+				ok, why := covered(resp, op, parsers[op])
+				r.Check(ok && constVal(op, want), fi.Decl, "(*framer).parseFrame dispatches "+op, fmt.Sprintf("branch present, value 0x%02X, parsed by %s", want, parsers[op]),
+					"response opcode "+op+fmt.Sprintf(" (0x%02X) ", want)+ifs(ok, "has a different value than the specification", why+" in parseFrame"))
+			}
+			for _, dp := range resp {
+				for _, l := range dp.labels {
+					if _, ok := specResponseOps[l]; !ok && !dp.rejected {
+						r.Bad(fi.Decl, "(*framer).parseFrame dispatches only response opcodes", l+" is not a response opcode of the specification")
 					}
 				}
-				r.Check(cc != nil && okVal, sw, "(*framer).parseFrame dispatches "+op, fmt.Sprintf("case present, value 0x%02X", want), "response opcode "+op+fmt.Sprintf(" (0x%02X) has no case in parseFrame or a different value than the specification", want))
 			}
-			for l := range labels {
-				if _, ok := specResponseOps[l]; !ok {
-					r.Bad(labels[l], "(*framer).parseFrame dispatches only response opcodes", l+" is not a response opcode of the specification")
-				}
-			}
-			r.Check(clauseRejects(p, info, def), sw, "(*framer).parseFrame rejects unknown opcodes", "default returns an error", "an unknown opcode is not rejected")
+			r.Check(restRejected(resp), fi.Decl, "(*framer).parseFrame rejects unknown opcodes", "every other opcode ends in an error", "an unknown opcode is not rejected")
 		}
 	}
 	if fi := r.NeedFunc("(*framer).parseResultFrame"); fi != nil {
-		info := fi.Pkg.TypesInfo
-		labels, _, sw := switchCases(p, fi, "kind")
 		want := map[string]int64{"resultKindVoid": 1, "resultKindRows": 2, "resultKindKeyspace": 3, "resultKindPrepared": 4, "resultKindSchemaChanged": 5}
-		for nme, v := range want {
-			okVal := false
-			if obj, ok := p.Root.Types.Scope().Lookup(nme).(*types.Const); ok {
-				if cv, ok := constValInt(obj); ok && cv == v {
-					okVal = true
-				}
+		parsers := map[string]string{"resultKindVoid": "", "resultKindRows": "(*framer).parseResultRows", "resultKindKeyspace": "(*framer).parseResultSetKeyspace", "resultKindPrepared": "(*framer).parseResultPrepared", "resultKindSchemaChanged": "(*framer).parseResultSchemaChange"}
+		var targets []string
+		for _, t := range parsers {
+			if t != "" {
+				targets = append(targets, t)
 			}
-			r.Check(labels[nme] != nil && okVal, fi.Decl, "(*framer).parseResultFrame handles "+nme, fmt.Sprintf("kind %d", v), "RESULT kind "+nme+fmt.Sprintf(" (%d) is not handled or has another value than the specification", v))
 		}
-		// unknown kind -> error: the statement after the switch returns an error
-		rej := false
-		if sw != nil {
-			ast.Inspect(fi.Decl.Body, func(m ast.Node) bool {
-				if rs, ok := m.(*ast.ReturnStmt); ok && rs.Pos() > sw.End() && len(rs.Results) == 2 && !isNil(info, rs.Results[1]) {
-					rej = true
-				}
-				return true
-			})
+		sort.Strings(targets)
+		paths, _ := dispatchPaths(p, fi, 4, "kind", targets)
+		for nme, v := range want {
+			ok, why := covered(paths, nme, parsers[nme])
+			r.Check(ok && constVal(nme, v), fi.Decl, "(*framer).parseResultFrame handles "+nme, fmt.Sprintf("kind %d", v), "RESULT kind "+nme+fmt.Sprintf(" (%d) ", v)+ifs(ok, "has another value than the specification", why))
 		}
-		r.Check(rej, fi.Decl, "(*framer).parseResultFrame rejects unknown kinds", "error returned", "an unknown RESULT kind is not rejected")
+		r.Check(restRejected(paths), fi.Decl, "(*framer).parseResultFrame rejects unknown kinds", "error returned", "an unknown RESULT kind is not rejected")
 	}
-	strCases := func(name, tagSuffix string, want []string) {
+	strCases := func(name, subj string, version int, want []string) {
 		fi := r.NeedFunc(name)
 		if fi == nil {
 			return
 		}
-		info := fi.Pkg.TypesInfo
-		labels, def, sw := switchCases(p, fi, tagSuffix)
+		paths, _ := dispatchPaths(p, fi, version, subj, nil)
 		for _, w := range want {
-			r.Check(labels[`"`+w+`"`] != nil, fi.Decl, name+" handles "+w, "case present", name+" has no case for "+w)
+			ok, _ := covered(paths, `"`+w+`"`, "")
+			r.Check(ok, fi.Decl, name+" handles "+w, "branch present", name+" has no branch for "+w+" (or rejects it)")
 		}
-		if sw != nil {
-			r.Check(clauseRejects(p, info, def), sw, name+" rejects unknown values", "default raises an error", name+" does not reject unknown values")
-		}
+		r.Check(restRejected(paths), fi.Decl, name+" rejects unknown values", "every other value raises an error", name+" does not reject unknown values")
 	}
-	strCases("(*framer).parseEventFrame", "eventType", []string{"TOPOLOGY_CHANGE", "STATUS_CHANGE", "SCHEMA_CHANGE"})
-	strCases("(*framer).parseResultSchemaChange", "target", []string{"KEYSPACE", "TABLE", "TYPE", "FUNCTION", "AGGREGATE"})
+	strCases("(*framer).parseEventFrame", "eventType", 4, []string{"TOPOLOGY_CHANGE", "STATUS_CHANGE", "SCHEMA_CHANGE"})
+	strCases("(*framer).parseResultSchemaChange", "target", 4, []string{"KEYSPACE", "TABLE", "TYPE", "FUNCTION", "AGGREGATE"})
 }
 
 func constValInt(c *types.Const) (int64, bool) {
@@ -190,11 +307,18 @@ func c04r2(p *Program, r *Report) {
 	if fi == nil {
 		return
 	}
-	labels, _, sw := switchCases(p, fi, "code")
-	if sw == nil {
-		r.Unresolved("parseErrorFrame: no switch on the error code")
+	paths, _ := dispatchPaths(p, fi, 4, "code", nil)
+	labels := map[string]bool{}
+	for _, dp := range paths {
+		for _, l := range dp.labels {
+			labels[l] = true
+		}
+	}
+	if len(labels) == 0 {
+		r.Unresolved("parseErrorFrame: no dispatch on the error code")
 		return
 	}
+	var sw ast.Node = fi.Decl
 	scope := p.Root.Types.Scope()
 	declared := 0
 	for _, nme := range scope.Names() {
@@ -208,7 +332,7 @@ func c04r2(p *Program, r *Report) {
 		declared++
 		v, _ := constValInt(c)
 		want, known := specErrCodes[nme]
-		r.Check(known && v == want && labels[nme] != nil, sw, "error code "+nme, fmt.Sprintf("0x%04X, has a case", v),
+		r.Check(known && v == want && labels[nme], sw, "error code "+nme, fmt.Sprintf("0x%04X, has a case", v),
 			fmt.Sprintf("error code %s = 0x%04X: %s", nme, v, ifs(!known, "not an error code of the specification", ifs(v != want, fmt.Sprintf("the specification says 0x%04X", want), "no case in parseErrorFrame: the server's error is reported as 'unknown error code'"))))
 	}
 	for nme := range specErrCodes {
@@ -551,14 +675,25 @@ func c04r4(p *Program, r *Report) {
 		"TypeUDT":   {"[string] [string] [short] loop{[string] [option]}", "UDTTypeInfo"},
 	}
 	seen := map[string]bool{}
+	retTypes := map[string]map[string]bool{}
 	for _, st := range tr.run(fi, 4) {
 		ft := flat(st.trace)
 		if len(ft) == 0 || ft[0].Prim != "[short]" {
 			r.Bad(fi.Decl, "(*framer).readTypeInfo starts with the [short] option id", "readTypeInfo does not start by reading the [short] id: "+traceStr(ft))
 			return
 		}
-		custom := st.assume["simple.typ == TypeCustom"]
+		names, restricted := st.selected("simple.typ")
+		if !restricted {
+			names = nil
+		}
+		is := func(n string) bool { return len(names) == 1 && names[0] == n }
 		rest := ft[1:]
+		custom := is("TypeCustom")
+		for k, v := range st.assume {
+			if v && strings.HasSuffix(k, "typ == TypeCustom") {
+				custom = true // a custom class name that maps to a native type re-binds the id afterwards
+			}
+		}
 		if custom {
 			if len(rest) == 0 || rest[0].Prim != "[string]" {
 				r.Bad(fi.Decl, "(*framer).readTypeInfo custom type reads its class name", "a custom type does not read the [string] class name")
@@ -566,32 +701,29 @@ func c04r4(p *Program, r *Report) {
 			}
 			rest = rest[1:]
 		}
-		lbl := ""
-		var body []TraceItem
-		for i, it := range rest {
-			if it.Prim == "case" {
-				lbl = it.Arg
-				body = rest[i+1:]
-				break
-			}
+		got := strings.Join(notations(rest), " ")
+		rt := ""
+		if st.retStmt != nil && len(st.retStmt.Results) == 1 {
+			rt = typeNameOf(info.TypeOf(st.retStmt.Results[0]))
 		}
-		got := strings.Join(notations(body), " ")
-		for _, l := range strings.Split(lbl, ",") {
-			name := strings.SplitN(l, "=", 2)[0]
+		for _, name := range names {
+			if retTypes[name] == nil {
+				retTypes[name] = map[string]bool{}
+			}
+			retTypes[name][rt] = true
 			switch name {
 			case "TypeTuple", "TypeUDT":
 				seen[name] = true
 				r.Check(got == want[name].seq, fi.Decl, "(*framer).readTypeInfo "+name+" parameters", got, name+" reads `"+got+"`, the specification says `"+want[name].seq+"`")
 			case "TypeMap", "TypeList", "TypeSet":
-				// map: two options when simple.typ == TypeMap on this path, else one
-				isMap := st.assume["simple.typ == TypeMap"]
+				// a path that still allows several collection kinds must read what all of them need
 				exp := "[option]"
-				if isMap {
+				if name == "TypeMap" {
 					exp = "[option] [option]"
 				}
 				seen["coll"] = true
 				if got != exp {
-					r.Bad(fi.Decl, "(*framer).readTypeInfo collection parameters", fmt.Sprintf("collection (map=%v) reads `%s`, expected `%s`", isMap, got, exp))
+					r.Bad(fi.Decl, "(*framer).readTypeInfo collection parameters", fmt.Sprintf("%s reads `%s`, expected `%s`", name, got, exp))
 				}
 			}
 		}
@@ -602,21 +734,10 @@ func c04r4(p *Program, r *Report) {
 		}
 	}
 	r.OK(fi.Decl, "(*framer).readTypeInfo collection parameters", "list/set read one nested option, map reads two")
-	// returned dynamic types per case
-	labels, _, sw := switchCases(p, fi, "simple.typ")
-	if sw != nil {
-		for name, w := range map[string]string{"TypeTuple": "TupleTypeInfo", "TypeUDT": "UDTTypeInfo", "TypeMap": "CollectionType", "TypeList": "CollectionType", "TypeSet": "CollectionType"} {
-			cc, _ := labels[name].(*ast.CaseClause)
-			ok := false
-			if cc != nil {
-				for _, stx := range cc.Body {
-					if rs, isR := stx.(*ast.ReturnStmt); isR && len(rs.Results) == 1 {
-						ok = typeNameOf(info.TypeOf(rs.Results[0])) == w
-					}
-				}
-			}
-			r.Check(ok, sw, "(*framer).readTypeInfo "+name+" yields "+w, "the Go type the decoders assert", "option "+name+" does not produce a "+w+": the value decoders' type assertions fail or panic")
-		}
+	// returned dynamic types per option id
+	for name, w := range map[string]string{"TypeTuple": "TupleTypeInfo", "TypeUDT": "UDTTypeInfo", "TypeMap": "CollectionType", "TypeList": "CollectionType", "TypeSet": "CollectionType"} {
+		ok := len(retTypes[name]) == 1 && retTypes[name][w]
+		r.Check(ok, fi.Decl, "(*framer).readTypeInfo "+name+" yields "+w, "the Go type the decoders assert", "option "+name+" does not produce a "+w+": the value decoders' type assertions fail or panic")
 	}
 	_ = token.NoPos
 }
